@@ -84,7 +84,7 @@ def generate(rng, tier):
     nreq = r.choice([1, 2, 2, 3, 4])
     pipelined = nreq > 1 and r.random() < 0.5
     profile = {"adversarial": r.choice([0.0, 0.0, 0.3, 0.6]), "adversarial_reply": r.choice([0.0, 0.0, 0.3]),
-               "trailers": 0.0, "bare_lf": r.choice([0.0, 0.05]), "obs_fold": 0.1, "expect": 0.08, "interim": 0.0,
+               "trailers": r.choice([0.0, 0.1, 0.3]), "bare_lf": r.choice([0.0, 0.05]), "obs_fold": 0.1, "expect": 0.08, "interim": r.choice([0.0, 0.1]),
                "http10": 0.1}
     # tail family: a keep-alive origin glues an unsolicited extra response behind its first answer; the client leaves
     # the origin time to deliver all of it before it sends the next request, so that on every segmentation the surplus
@@ -92,7 +92,9 @@ def generate(rng, tier):
     tail_family = rng.at("c02-tail").random() < 0.12
     if tail_family:
         nreq, pipelined = max(nreq, 2), False
-        profile = dict(profile, adversarial_reply=0.0, reply_close=0.0)
+        # (clean requests: a request that announces more body than it sends swallows the start of the next one and
+        #  defeats the "next request only after the surplus has arrived" arrangement)
+        profile = dict(profile, adversarial=0.0, adversarial_reply=0.0, reply_close=0.0)
     reqs, replies, methods = [], {}, []
     for k in range(nreq):
         rq = G.gen_request(r, k, form=form, host="a.test" if (mode != "regular" or tail_family) else None, profile=profile)
